@@ -3,6 +3,8 @@ package gohbase
 import (
 	"bytes"
 	"context"
+	"errors"
+	"time"
 
 	"github.com/tsuna/gohbase/hrpc"
 	"github.com/tsuna/gohbase/pb"
@@ -24,7 +26,12 @@ type vMetaEnv struct {
 	noRow   bool
 	metaKey []byte
 	calls   int
+	rows    []*pb.Result // table listing (lookupAllRegions): all rows, in one response
+	fails   int          // the first so many scans of hbase:meta fail
+	failed  int
 }
+
+var vErrMeta = errors.New("verif: hbase:meta unavailable")
 
 var vMeta *vMetaEnv
 
@@ -36,6 +43,14 @@ func vMetaSendRPC(c *client, rpc hrpc.Call) (proto.Message, error) {
 		verifFail("a meta lookup sends a scan of hbase:meta")
 	}
 	sc.SetRegion(c.metaRegionInfo)
+	if e.failed < e.fails {
+		e.failed++
+		return nil, vErrMeta
+	}
+	if e.rows != nil {
+		e.req = sc.ToProto().(*pb.ScanRequest)
+		return &pb.ScanResponse{MoreResults: proto.Bool(false), MoreResultsInRegion: proto.Bool(false), Results: e.rows}, nil
+	}
 	if e.req == nil {
 		e.req = sc.ToProto().(*pb.ScanRequest)
 		e.metaKey = append([]byte{}, sc.Key()...)
@@ -96,4 +111,68 @@ func VerifMetaLookup() {
 		verifReach("rejected")
 		verifAssert(got != want || (len(stop) != 0 && bytes.Compare(key, stop) >= 0), "a row of the right table that covers the key is accepted")
 	}
+}
+
+// vMetaRow: the hbase:meta row of a region of table #ti.
+func vMetaRow(ti int, id uint64, start, stop []byte, addr string) *pb.Result {
+	ri := &pb.RegionInfo{RegionId: proto.Uint64(id), StartKey: start, EndKey: stop,
+		TableName: &pb.TableName{Namespace: []byte("default"), Qualifier: []byte(vTables[ti].table)}}
+	if vTables[ti].ns != "" {
+		ri.TableName.Namespace = []byte(vTables[ti].ns)
+	}
+	name := append([]byte(vTables[ti].fq+","), start...)
+	name = append(name, ',', byte('0'+id))
+	return &pb.Result{Cell: []*pb.Cell{
+		{Row: name, Family: []byte("info"), Qualifier: []byte("regioninfo"), Value: append([]byte("PBUF"), region.VerifWire(ri, false)...)},
+		{Row: name, Family: []byte("info"), Qualifier: []byte("server"), Value: []byte(addr)},
+	}}
+}
+
+// VerifListRegions (C01, CacheRegions path): hbase:meta lists the table's regions (two regions
+// split at an arbitrary key, on two servers); lookupAllRegions asks for exactly the table's
+// rows and returns every region with its server, in order.
+func VerifListRegions() {
+	c := vNewRootClient()
+	c.regionLookupTimeout = time.Hour
+	e := &vMetaEnv{}
+	vMeta = e
+	split := verifBytesN(1)
+	e.rows = []*pb.Result{vMetaRow(0, 1, nil, split, "rs0:1"), vMetaRow(0, 2, split, nil, "rs1:1")}
+	regs, err := c.lookupAllRegions(context.Background(), []byte("t"))
+	region.VerifResetWire()
+	verifAssert(err == nil && len(regs) == 2, "both regions of the table are returned")
+	verifAssert(e.req != nil && e.req.Scan != nil && !e.req.Scan.GetReversed(), "hbase:meta is scanned forward")
+	verifAssert(bytes.Compare(e.req.Scan.StartRow, []byte("t,")) <= 0 && bytes.HasPrefix(e.req.Scan.StartRow, []byte("t")) &&
+		bytes.Compare(e.req.Scan.StopRow, []byte("t,\xff\xff\xff\xff")) > 0,
+		"the scan covers all the rows \"t,<start key>,<id>\" of the table")
+	verifAssert(len(regs[0].regionInfo.StartKey()) == 0 && bytes.Equal(regs[0].regionInfo.StopKey(), split) && regs[0].addr == "rs0:1",
+		"the first region with its range and server")
+	verifAssert(bytes.Equal(regs[1].regionInfo.StartKey(), split) && len(regs[1].regionInfo.StopKey()) == 0 && regs[1].addr == "rs1:1",
+		"the second region with its range and server")
+	verifReach("listed")
+}
+
+// VerifLookupAllPacing (C17): lookupAllRegions against an hbase:meta that fails ATTEMPTS times
+// and then answers: one wait between consecutive attempts, on the schedule.
+func VerifLookupAllPacing() {
+	c := vNewRootClient()
+	c.regionLookupTimeout = time.Hour
+	n := verifParam("ATTEMPTS")
+	e := &vMetaEnv{fails: n}
+	vMeta = e
+	e.rows = []*pb.Result{vMetaRow(0, 1, nil, nil, "rs0:1")}
+	var sleeps []time.Duration
+	sleepAndIncreaseBackoffOverride = func(ctx context.Context, b time.Duration) (time.Duration, error) {
+		sleeps = append(sleeps, b)
+		return b * 2, nil
+	}
+	regs, err := c.lookupAllRegions(context.Background(), []byte("t"))
+	sleepAndIncreaseBackoffOverride = nil
+	region.VerifResetWire()
+	verifAssert(err == nil && len(regs) == 1, "the listing succeeds once hbase:meta answers")
+	verifAssert(len(sleeps) == n, "one wait after every failed listing")
+	for i, d := range sleeps {
+		verifAssert(d == (16*time.Millisecond)<<uint(i), "the waits follow the schedule")
+	}
+	verifReach("paced")
 }
